@@ -181,6 +181,7 @@ func runC06(c *Ctx) {
 	r.Rule("R4", "store false dominates the DISCONNECTED dispatch; store true dominates every success return of the connect routine")
 	r.Rule("R5", "in the connect routine every write to per-connection state (socket, buffered I/O, queues, cancel func; directly or through callees), every tracker mutation and every go statement is dominated by the not-already-connected and server-non-empty edges; no dispatch is reachable from it")
 	r.Rule("R6", "on the flag-false path of the teardown there are no stores and no calls other than the unlock")
+	r.Rule("R8", "the wait that precedes DISCONNECTED is not blocked by the library itself (the release discipline of C07.R1, a necessary condition of 'each established connection ends with exactly one DISCONNECTED'): every blocking operation in the region Close waits for is released by something the teardown does before waiting; in particular nothing there acquires a lock the teardown holds across the wait")
 	r.Rule("R7", "the wait that precedes DISCONNECTED terminates as far as accounting goes: WaitGroup.Add constants equal the member spawns on every path and every member goroutine calls Done exactly once on each of its exits (a missed Done means DISCONNECTED is never delivered, a double Done panics)")
 	funcs := c.clientFuncs()
 	ls := c.ComputeLocksets(funcs)
@@ -317,6 +318,7 @@ func runC06(c *Ctx) {
 	// ---- R5
 	c.connectInertRule("R5")
 	c.wgAccounting("R7")
+	c.releaseCensus("R8")
 
 	// ---- R6
 	if len(loads) == 1 {
@@ -495,38 +497,66 @@ func (c *Ctx) connectInertRule(rule string) {
 	r.Funcs[c.FuncKey(cn)] = true
 	// a refusal reports an error (a nil result would make the caller fire REGISTER)
 	nRef := 0
-	funcInstrs(cn, func(in ssa.Instruction) {
-		rt, ok := in.(*ssa.Return)
-		if !ok || len(rt.Results) == 0 {
-			return
-		}
-		refusal := ""
-		for _, cd := range CondsAt(rt.Block()) {
-			cd = unwrapNot(cd)
-			if fv, _ := loadedField(cd.V); fv == a.Connected && cd.True {
-				refusal = "already connected"
+	scan := func(fn *ssa.Function) {
+		funcInstrs(fn, func(in ssa.Instruction) {
+			rt, ok := in.(*ssa.Return)
+			if !ok || len(rt.Results) == 0 {
+				return
 			}
-			if bo, ok := cd.V.(*ssa.BinOp); ok && (bo.Op == token.EQL || bo.Op == token.NEQ) {
-				var other ssa.Value
-				if s, okk := constString(bo.Y); okk && s == "" {
-					other = bo.X
-				} else if s, okk := constString(bo.X); okk && s == "" {
-					other = bo.Y
+			refusal := ""
+			for _, cd := range CondsAt(rt.Block()) {
+				cd = unwrapNot(cd)
+				if fv, _ := loadedField(cd.V); fv == a.Connected && cd.True {
+					refusal = "already connected"
 				}
-				if other != nil {
-					if fv, _ := loadedField(other); fv == a.CfgServer && (bo.Op == token.EQL) == cd.True {
-						refusal = "no server configured"
+				if bo, ok := cd.V.(*ssa.BinOp); ok && (bo.Op == token.EQL || bo.Op == token.NEQ) {
+					var other ssa.Value
+					if s, okk := constString(bo.Y); okk && s == "" {
+						other = bo.X
+					} else if s, okk := constString(bo.X); okk && s == "" {
+						other = bo.Y
+					}
+					if other != nil {
+						if fv, _ := loadedField(other); fv == a.CfgServer && (bo.Op == token.EQL) == cd.True {
+							refusal = "no server configured"
+						}
+					}
+					// the connect routine passing on the verdict of a check helper: return on its "error" edge
+					var errV ssa.Value
+					if isNilConst(bo.Y) {
+						errV = bo.X
+					} else if isNilConst(bo.X) {
+						errV = bo.Y
+					}
+					if call, isC := errV.(*ssa.Call); isC && fn == cn && (bo.Op == token.NEQ) == cd.True {
+						if h := c.checkHelper(call); h != nil {
+							if hc, hs := c.checkHelperFacts(h, 1); hc || hs {
+								refusal = "verdict of " + h.Name()
+							}
+						}
 					}
 				}
 			}
+			if refusal == "" {
+				return
+			}
+			nRef++
+			v := retVal(rt, len(rt.Results)-1)
+			okV := !isNilConst(v)
+			r.Add(rule, "refusal-returns-error:"+refusal, c.InstrPos(rt), c.FuncKey(fn), "a refused Connect ("+refusal+") returns an error, so no event fires", okV, "returned "+v.String())
+		})
+	}
+	scan(cn)
+	for _, cs := range CallSites(cn) {
+		if call, ok := cs.(*ssa.Call); ok {
+			if h := c.checkHelper(call); h != nil {
+				if hc, hs := c.checkHelperFacts(h, 1); hc || hs {
+					r.Funcs[c.FuncKey(h)] = true
+					scan(h)
+				}
+			}
 		}
-		if refusal == "" {
-			return
-		}
-		nRef++
-		v := retVal(rt, len(rt.Results)-1)
-		r.Add(rule, "refusal-returns-error:"+refusal, c.InstrPos(rt), c.FuncKey(cn), "a refused Connect ("+refusal+") returns an error, so no event fires", !isNilConst(v), "returned "+v.String())
-	})
+	}
 	r.Floor(rule, "refusal returns in the connect routine", nRef, 2)
 	seen := map[*ssa.Function]*connEffects{}
 	pc := c.perConnFields()
@@ -938,23 +968,21 @@ func (c *Ctx) drainerAt(tf *teardownFacts, g *ssa.Go, start ssa.Instruction) {
 	}
 }
 
-func runC07(c *Ctx) {
+// releaseCensus is the release discipline of the disconnect (C07.R1): every
+// blocking operation in the region Close waits for has a release the teardown
+// performs before waiting, and the teardown itself blocks on nothing else.
+func (c *Ctx) releaseCensus(rule string) ([]*ssa.Function, *Locksets, *teardownFacts) {
 	r, a := c.R, c.A
-	r.Rule("R1", "every blocking operation in the region awaited by Close (members before Done, their awaited callees, built-in handlers, the command API) has a release: (a) select with the connection context's Done, cancelled before Wait; (b) timer; (c) socket I/O with the socket closed before Wait; (d) join of a local WaitGroup; (e) a connection-queue send/receive with a drainer goroutine that receives until after Wait; (f) a lock the teardown does not hold while waiting")
-	r.Rule("R2", "no member calls the identity-less teardown after its Done (a late call tears down the next connection)")
-	r.Rule("R3", "every connection goroutine that consumes a queue or does socket I/O calls the teardown on every exit path")
-	r.Rule("R4", "every success path of the connect routine creates fresh inbound and outbound queues and, when tracking, wipes the tracker - after the refusals")
-	r.Rule("R5", "every go statement in package client is a WaitGroup member (Add constants equal member spawns on every path; each member does exactly one Done per exit), locally joined, the detached background dispatch, or a teardown helper stopped before the teardown returns")
 	funcs := c.clientFuncs()
 	ls := c.ComputeLocksets(funcs)
 	tf := c.teardownFacts(ls)
-	r.Anchor("R1", "Wait on the connection WaitGroup in the teardown", tf.wait != nil)
+	r.Anchor(rule, "Wait on the connection WaitGroup in the teardown", tf.wait != nil)
 	if tf.wait == nil {
-		return
+		return funcs, ls, tf
 	}
-	r.Add("R1", "teardown:cancel-before-wait", c.InstrPos(tf.wait), c.FuncKey(a.TeardownCore), "the teardown cancels the connection context before waiting", tf.cancels, "call of the stored cancel func dominates Wait")
-	r.Add("R1", "teardown:close-socket-before-wait", c.InstrPos(tf.wait), c.FuncKey(a.TeardownCore), "the teardown closes the socket before waiting", tf.closesSock, "sock.Close() dominates Wait")
-	r.Add("R1", "teardown:drainer", c.InstrPos(tf.wait), c.FuncKey(a.TeardownCore), "the teardown runs a drainer of both queues that keeps receiving until after Wait", tf.drains[a.In] && tf.drains[a.Out],
+	r.Add(rule, "teardown:cancel-before-wait", c.InstrPos(tf.wait), c.FuncKey(a.TeardownCore), "the teardown cancels the connection context before waiting", tf.cancels, "call of the stored cancel func dominates Wait")
+	r.Add(rule, "teardown:close-socket-before-wait", c.InstrPos(tf.wait), c.FuncKey(a.TeardownCore), "the teardown closes the socket before waiting", tf.closesSock, "sock.Close() dominates Wait")
+	r.Add(rule, "teardown:drainer", c.InstrPos(tf.wait), c.FuncKey(a.TeardownCore), "the teardown runs a drainer of both queues that keeps receiving until after Wait", tf.drains[a.In] && tf.drains[a.Out],
 		fmt.Sprintf("drains in=%v out=%v", tf.drains[a.In], tf.drains[a.Out]))
 	r.Note("locks held by the teardown while waiting: %s (a handler calling Connected()/String() during a disconnect would deadlock; outside the property's quantifier, reported as information)", tf.heldAtWait)
 
@@ -1046,7 +1074,7 @@ func runC07(c *Ctx) {
 			if chain != "" {
 				why += " [reached via " + chain + "]"
 			}
-			r.Add("R1", key, c.InstrPos(in), c.FuncKey(fn), "blocking "+what+" is releasable by the teardown", ok, "class "+class+": "+why)
+			r.Add(rule, key, c.InstrPos(in), c.FuncKey(fn), "blocking "+what+" is releasable by the teardown", ok, "class "+class+": "+why)
 		}
 		selSeen := map[*ssa.Select]bool{}
 		for _, op := range ChanOps(fn) {
@@ -1152,12 +1180,12 @@ func runC07(c *Ctx) {
 			if op.Kind == "close" || !op.Blocking {
 				continue
 			}
-			r.Add("R1", "teardown-blocks:"+c.FuncKey(fn)+":"+op.Kind, c.InstrPos(op.In), c.FuncKey(fn), "the teardown does not wait on a channel", false, "blocking "+op.Kind+" in the teardown path")
+			r.Add(rule, "teardown-blocks:"+c.FuncKey(fn)+":"+op.Kind, c.InstrPos(op.In), c.FuncKey(fn), "the teardown does not wait on a channel", false, "blocking "+op.Kind+" in the teardown path")
 		}
 		funcInstrs(fn, func(in ssa.Instruction) {
 			if recv, ok := isWGMethod(in, "Wait"); ok {
 				if fv, _ := fieldOf(recv); fv != a.WG {
-					r.Add("R1", "teardown-blocks:"+c.FuncKey(fn)+":Wait", c.InstrPos(in), c.FuncKey(fn), "the teardown waits only for the connection's own goroutines", false, "Wait on another WaitGroup ("+recv.Name()+"): whatever it waits for is not released by the teardown")
+					r.Add(rule, "teardown-blocks:"+c.FuncKey(fn)+":Wait", c.InstrPos(in), c.FuncKey(fn), "the teardown waits only for the connection's own goroutines", false, "Wait on another WaitGroup ("+recv.Name()+"): whatever it waits for is not released by the teardown")
 				}
 			}
 			// socket I/O by the teardown itself: nothing releases it (the teardown is the releaser), so it may only
@@ -1204,14 +1232,29 @@ func runC07(c *Ctx) {
 					}
 				}
 			})
-			r.Add("R1", "teardown-blocks:"+c.FuncKey(fn)+":"+short, c.InstrPos(in), c.FuncKey(fn), "the teardown does no socket I/O before it has closed the socket", closed,
+			r.Add(rule, "teardown-blocks:"+c.FuncKey(fn)+":"+short, c.InstrPos(in), c.FuncKey(fn), "the teardown does no socket I/O before it has closed the socket", closed,
 				"socket I/O "+short+" in the teardown path is not preceded by the socket close: a peer that stopped reading blocks it, and with it the disconnect, forever")
 		})
 	}
-	r.Floor("R1", "blocking operations classified in the awaited region", nOps, 10)
+	r.Floor(rule, "blocking operations classified in the awaited region", nOps, 10)
 	r.Note("blocking operations by release class: %v", classCount)
 	r.Sites = nOps
 
+	return funcs, ls, tf
+}
+
+func runC07(c *Ctx) {
+	r, a := c.R, c.A
+	r.Rule("R1", "every blocking operation in the region awaited by Close (members before Done, their awaited callees, built-in handlers, the command API) has a release: (a) select with the connection context's Done, cancelled before Wait; (b) timer; (c) socket I/O with the socket closed before Wait; (d) join of a local WaitGroup; (e) a connection-queue send/receive with a drainer goroutine that receives until after Wait; (f) a lock the teardown does not hold while waiting")
+	r.Rule("R2", "no member calls the identity-less teardown after its Done (a late call tears down the next connection)")
+	r.Rule("R3", "every connection goroutine that consumes a queue or does socket I/O calls the teardown on every exit path")
+	r.Rule("R4", "every success path of the connect routine creates fresh inbound and outbound queues and, when tracking, wipes the tracker - after the refusals")
+	r.Rule("R5", "every go statement in package client is a WaitGroup member (Add constants equal member spawns on every path; each member does exactly one Done per exit), locally joined, the detached background dispatch, or a teardown helper stopped before the teardown returns")
+	funcs, ls, tf := c.releaseCensus("R1")
+	if tf.wait == nil {
+		return
+	}
+	_ = ls
 	// ---- R2: keyed by the WaitGroup member on whose behalf the stale call is made, so that extracting
 	// the "Done; Close" tail into a helper does not change the identity of the finding
 	nStale := 0
@@ -1272,6 +1315,87 @@ func runC07(c *Ctx) {
 		}
 	}
 	r.Note("%d teardown calls after Done (finding F12 when > 0)", nStale)
+	// R2 (b): who may call the teardown from inside the library at all
+	{
+		memo := map[*ssa.Function]int{}
+		var memberOnly func(fn *ssa.Function, depth int) bool
+		memberOnly = func(fn *ssa.Function, depth int) bool {
+			if a.IsMember(fn) {
+				return true
+			}
+			switch memo[fn] {
+			case 1:
+				return true
+			case 2, 3:
+				return false
+			}
+			if depth > 4 {
+				return false
+			}
+			memo[fn] = 3
+			ok := false
+			if fn.Parent() != nil {
+				// a closure: only when its parent calls or defers it itself and the parent qualifies
+				ok = memberOnly(fn.Parent(), depth+1)
+				funcInstrs(fn.Parent(), func(in ssa.Instruction) {
+					mc, isMC := in.(*ssa.MakeClosure)
+					if !isMC || mc.Fn != ssa.Value(fn) {
+						return
+					}
+					for _, ref := range *mc.Referrers() {
+						switch t := ref.(type) {
+						case *ssa.DebugRef:
+						case *ssa.Call:
+							if t.Call.Value != ssa.Value(mc) {
+								ok = false
+							}
+						case *ssa.Defer:
+							if t.Call.Value != ssa.Value(mc) {
+								ok = false
+							}
+						default:
+							ok = false // go statement, argument of AfterFunc, stored, ...
+						}
+					}
+				})
+			} else if fn.Object() != nil && !fn.Object().Exported() && !addrTaken(fn) {
+				sites := c.staticCallers(fn)
+				ok = len(sites) > 0
+				for _, cs := range sites {
+					if _, isGo := cs.(*ssa.Go); isGo && !a.IsMember(fn) {
+						ok = false
+					}
+					if !memberOnly(cs.Parent(), depth+1) {
+						ok = false
+					}
+				}
+			}
+			if ok {
+				memo[fn] = 1
+			} else {
+				memo[fn] = 2
+			}
+			return ok
+		}
+		nTd := 0
+		for _, fn := range funcs {
+			if fn == a.Teardown || fn == a.TeardownCore {
+				continue
+			}
+			for _, cs := range CallSites(fn) {
+				cc := cs.Common()
+				if cc.IsInvoke() || cc.StaticCallee() != a.Teardown {
+					continue
+				}
+				nTd++
+				_, isGo := cs.(*ssa.Go)
+				ok := !isGo && memberOnly(fn, 0)
+				r.Add("R2", "teardown-caller:"+c.FuncKey(fn), c.InstrPos(cs), c.FuncKey(fn), "inside the library the identity-less teardown is called only by a connection goroutine (or a helper only they reach), never by a timer callback or detached goroutine, which belongs to no connection and closes whichever one is up when it runs", ok,
+					kindName(cs)+" in "+c.FuncKey(fn))
+			}
+		}
+		r.Floor("R2", "library-internal calls of the teardown", nTd, 2)
+	}
 
 	// ---- R3
 	c.membersCallTeardown("R3")
